@@ -27,7 +27,8 @@ THEOREMS = [
     'IblVerif.C18.fft_eq_zmod_dft',
     'IblVerif.C18.dft2_grid_separable',
 ]
-RULE = ('(a) ns_optim_fft: every n in an initial segment, every table entry 2^a3^b (a<25, b<15) -1/+0/+1, powers of 2 and 3 '
+RULE = ('contents: float64, float32, int16, int32, int64 (and complex128/complex64 where the function takes spectra) for every helper; '
+        '(a) ns_optim_fft: every n in an initial segment, every table entry 2^a3^b (a<25, b<15) -1/+0/+1, powers of 2 and 3 '
         'around the table limits, seeded log-uniform n up to past the last entry (IndexError); '
         '(b) convolve: all pairs (nsx, nsw) of a box (thorough: 1..300 x 1..300, exhaustive; quick: every pair of that box whose '
         'padded size is a power of three plus seeded pairs), both modes, operator observed on the full impulse basis (x = identity '
@@ -48,6 +49,8 @@ ASSUMPTIONS = [
     'float comparisons: 1e-9 x scale for FFT paths (scale = sum |x| max |w| resp. n max |ts|), 1e-12 for the cosine taper, relative 1e-14 for fscale '
     '(so that algebraically equivalent rewrites such as k / (ns * si) do not alarm); index-level observables (lengths, crop offsets, bin order, '
     'conjugation pattern, table values) are compared exactly',
+    'input dtypes: results for float32 / complex64 input are compared with 1e-5 x scale against the float64 model and the float64 call '
+    '(NumPy >= 2 transforms single-precision data in single precision); integer input must agree with the float64 copy to 1e-9 x scale',
     'lengths >= 1 (empty axes raise in NumPy; modelled as errors and compared, but outside the property)',
     'cosine bounds b0 < b1 and sampling interval si > 0',
 ]
@@ -100,6 +103,23 @@ def fibres(a, axis):
     """Iterate over the 1-D fibres of `a` along `axis` (as copies), in C order of the other indices."""
     b = np.moveaxis(a, axis, -1)
     return b.reshape(int(np.prod(b.shape[:-1])), b.shape[-1])
+
+
+REAL_DTYPES = ('float64', 'float32', 'int16', 'int32', 'int64')
+
+
+def tol_for(dtype):
+    """Relative tolerance per input dtype: NumPy >= 2 transforms single-precision data in single precision."""
+    return 1e-5 if np.dtype(dtype) in (np.dtype('float32'), np.dtype('complex64')) else TOL
+
+
+def rand_real(rng, shape, dtype, amp=None):
+    """Arbitrary contents of the given real dtype (integers in about +-2000, like raw int16 voltage counts)."""
+    dt = np.dtype(dtype)
+    if dt.kind == 'i':
+        return rng.integers(-2000, 2001, size=shape).astype(dt)
+    amp = float(np.exp(rng.uniform(-3, 7))) if amp is None else amp
+    return (rng.standard_normal(shape) * amp).astype(dt)
 
 
 def shapes_for(rng, n, ndim, axis):
@@ -231,11 +251,16 @@ def corr_conv_operator(ctx):
         ctx.note(f'convolve operator: exhaustive box nsx, nsw in 1..{BOX}, both modes, full impulse basis')
 
 
+CONV_KINDS = ('float', 'int', 'int32', 'float32', 'int16', 'int64')
+
+
 def _rand_content(rng, shape, kind):
     if kind == 'int':
         return rng.integers(-9, 10, size=shape).astype(float)
-    if kind == 'int32':
-        return rng.integers(-9, 10, size=shape).astype(np.int32)
+    if kind in ('int16', 'int32', 'int64'):
+        return rng.integers(-2000 if kind != 'int32' else -9, 2001 if kind != 'int32' else 10, size=shape).astype(kind)
+    if kind == 'float32':
+        return (rng.standard_normal(shape) * np.exp(rng.uniform(-3, 3))).astype(np.float32)
     return rng.standard_normal(shape) * np.exp(rng.uniform(-3, 3))
 
 
@@ -254,7 +279,7 @@ def corr_conv_values(ctx):
             a, b = int(rng.integers(150, 301)), int(rng.integers(100, 301))
         ndim = int(rng.integers(1, 4))
         lead = tuple(int(rng.integers(1, 4)) for _ in range(ndim - 1))
-        kind = ('float', 'int', 'int32')[t % 3] if t % 7 else 'int'
+        kind = CONV_KINDS[t % len(CONV_KINDS)] if t % 7 else 'int'
         x = _rand_content(rng, lead + (a,), kind)
         wshape = (b,) if (ndim == 1 or rng.random() < 0.6) else lead + (b,)
         w = _rand_content(rng, wshape, kind)
@@ -271,8 +296,8 @@ def corr_conv_values(ctx):
         except Exception as e:
             O, err = None, errname(e)
         for i in range(X.shape[0]):
-            if kind == 'float':
-                lines.append(f'conv {mode} {bits(X[i])} {bits(W[i])}')
+            if kind in ('float', 'float32'):
+                lines.append(f'conv {mode} {bits(X[i].astype(np.float64))} {bits(W[i].astype(np.float64))}')
             else:
                 lines.append('convspec ' + mode + ' ' + ','.join(str(int(v)) for v in X[i]) + ' ' + ','.join(str(int(v)) for v in W[i]))
             meta.append((x.shape, w.shape, mode, kind, i, X[i].astype(float), W[i].astype(float), None if O is None else O[i], err))
@@ -290,9 +315,9 @@ def corr_conv_values(ctx):
             ctx.compare('convolve-values', desc, 'ok', m, tags=tags)
             continue
         tok = m.split()[1] if len(m.split()) > 1 else '-'
-        mv = unbits(tok) if kind == 'float' else (np.array([int(t) for t in tok.split(',')], dtype=float) if tok != '-' else np.zeros(0))
+        mv = unbits(tok) if kind in ('float', 'float32') else (np.array([int(t) for t in tok.split(',')], dtype=float) if tok != '-' else np.zeros(0))
         scale = max(float(np.sum(np.abs(xi))) * float(np.max(np.abs(wi))), 1e-300)
-        good = mv.shape == oi.shape and bool(np.all(np.abs(mv - oi) <= TOL * scale))
+        good = mv.shape == oi.shape and bool(np.all(np.abs(mv - oi) <= tol_for('float32' if kind == 'float32' else 'float64') * scale))
         ctx.compare('convolve-values', desc, 'ok' if good else f'out[:6]={np.asarray(oi)[:6].tolist()} len={len(oi)}',
                     'ok' if good else f'out[:6]={mv[:6].tolist()} len={len(mv)}', nontrivial=len(xi) >= 2 and len(wi) >= 2, tags=tags)
 
@@ -300,23 +325,33 @@ def corr_conv_values(ctx):
 # ---------------------------------------------------------------------------------------------
 # (c) freduce / fexpand
 # ---------------------------------------------------------------------------------------------
-def _coded(shape, axis):
-    """Complex array whose entry is (index along axis) + 1000·(fibre number) + 1j."""
+CODED_DTYPES = ('complex128', 'complex64', 'float64', 'float32', 'int16', 'int32', 'int64')
+
+
+def _coded(shape, axis, dtype='complex128'):
+    """Array whose entry is (index along axis) + 1000·(fibre number) (+ 1j for complex dtypes, so that conjugation shows)."""
     other = [s for i, s in enumerate(shape) if i != axis]
     fib = np.arange(int(np.prod(other)) if other else 1).reshape(other if other else ())
     a = np.expand_dims(fib, axis) * 1000.0 + np.arange(shape[axis]).reshape([-1 if i == axis else 1 for i in range(len(shape))])
-    return a + 1j
+    return (a + 1j).astype(dtype) if np.dtype(dtype).kind == 'c' else a.astype(dtype)
 
 
-def _decode_coded(out, axis):
-    """Back to the symbolic form `i` / `i*`; all fibres must agree and keep their fibre number."""
+def _strip_conj(sym):
+    return sym.replace('*', '')
+
+
+def _decode_coded(out, axis, dtype='complex128'):
+    """Back to the symbolic form `i` / `i*`; all fibres must agree and keep their fibre number and dtype."""
+    if out.dtype != np.dtype(dtype):
+        return f'dtype {out.dtype}'
+    cplx = np.dtype(dtype).kind == 'c'
     F = fibres(out, axis)
     syms = []
     for j, f in enumerate(F):
         idx = np.real(f) - 1000.0 * j
-        if not np.all(np.abs(np.imag(f)) == 1) or not np.all(idx == np.rint(idx)) or np.any(idx < 0) or np.any(idx >= 1000):
+        if (cplx and not np.all(np.abs(np.imag(f)) == 1)) or not np.all(idx == np.rint(idx)) or np.any(idx < 0) or np.any(idx >= 1000):
             return 'undecodable'
-        syms.append(','.join(f'{int(k)}' + ('*' if im < 0 else '') for k, im in zip(idx, np.imag(f))) or '-')
+        syms.append(','.join(f'{int(k)}' + ('*' if cplx and im < 0 else '') for k, im in zip(idx, np.imag(f))) or '-')
     if len(set(syms)) != 1:
         return 'fibres-differ'
     return 'ok ' + syms[0]
@@ -333,14 +368,15 @@ def corr_reduce_expand(ctx):
                 if n > 24 and (n + ndim + axis) % 3 and ctx.quick:
                     continue
                 sh = shapes_for(rng, n, ndim, axis)
-                x = _coded(sh, axis)
+                dt = CODED_DTYPES[(n + 2 * ndim + axis) % len(CODED_DTYPES)]
+                x = _coded(sh, axis, dt)
                 try:
-                    r = _decode_coded(fourier.freduce(x, axis=(axis - ndim if n % 4 == 1 else axis)) if (axis != ndim - 1 or n % 2) else fourier.freduce(x), axis)
+                    r = _decode_coded(fourier.freduce(x, axis=(axis - ndim if n % 4 == 1 else axis)) if (axis != ndim - 1 or n % 2) else fourier.freduce(x), axis, dt)
                 except Exception as e:
                     r = errname(e)
                 lines.append(f'freduce {n}'); impl.append(r)
-                meta.append(('freduce', {'op': 'freduce', 'n': n, 'ndim': ndim, 'axis': axis}, n >= 2,
-                             ('freduce', f'freduce:{ndim}d', 'freduce:odd' if n % 2 else 'freduce:even')))
+                meta.append(('freduce', {'op': 'freduce', 'n': n, 'ndim': ndim, 'axis': axis, 'dtype': dt}, n >= 2,
+                             ('freduce', f'freduce:{ndim}d', 'freduce:odd' if n % 2 else 'freduce:even', 'freduce:' + dt), dt))
     for ns in range(0, N + 1):
         ms = sorted(set([ns // 2 + 1, ns // 2, ns // 2 + 2, (ns + 1) // 2, 0, 1, int(rng.integers(0, N // 2 + 3))]))
         for m in ms:
@@ -349,18 +385,20 @@ def corr_reduce_expand(ctx):
             sh = shapes_for(rng, m, ndim, axis)
             if m == 0:
                 sh = tuple(0 if i == axis else s for i, s in enumerate(sh))
-            x = _coded(sh, axis)
+            dt = CODED_DTYPES[(ns + m) % len(CODED_DTYPES)] if m != ns // 2 + 1 else CODED_DTYPES[ns % 2]
+            x = _coded(sh, axis, dt)
             try:
-                r = _decode_coded(fourier.fexpand(x, ns, axis=(axis - ndim if ns % 4 == 1 else axis)) if (axis != ndim - 1 or m % 2) else fourier.fexpand(x, ns), axis)
+                r = _decode_coded(fourier.fexpand(x, ns, axis=(axis - ndim if ns % 4 == 1 else axis)) if (axis != ndim - 1 or m % 2) else fourier.fexpand(x, ns), axis, dt)
             except Exception as e:
                 r = errname(e)
             lines.append(f'fexpand {ns} {m}'); impl.append(r)
-            meta.append(('fexpand', {'op': 'fexpand', 'ns': ns, 'm': m, 'ndim': ndim, 'axis': axis}, ns >= 3,
+            meta.append(('fexpand', {'op': 'fexpand', 'ns': ns, 'm': m, 'ndim': ndim, 'axis': axis, 'dtype': dt}, ns >= 3,
                          ('fexpand', f'fexpand:{ndim}d', 'fexpand:ns_odd' if ns % 2 else 'fexpand:ns_even',
-                          'fexpand:m=ns//2+1' if m == ns // 2 + 1 else 'fexpand:m_other')))
+                          'fexpand:m=ns//2+1' if m == ns // 2 + 1 else 'fexpand:m_other', 'fexpand:' + dt), dt))
     model = ctx.lean(lines)
-    for (op, desc, nt, tags), a, b in zip(meta, impl, model):
-        ctx.compare(op, desc, a, b, nontrivial=nt, tags=tags)
+    for (op, desc, nt, tags, dt), a, b in zip(meta, impl, model):
+        # for real dtypes conjugation is the identity, so the conjugation marks of the model are not observable
+        ctx.compare(op, desc, a, b if np.dtype(dt).kind == 'c' else _strip_conj(b), nontrivial=nt, tags=tags)
 
 
 # ---------------------------------------------------------------------------------------------
@@ -427,7 +465,7 @@ def corr_filters(ctx):
         ndim = int(rng.integers(1, 4))
         axis = int(rng.integers(0, ndim))
         sh = shapes_for(rng, n, ndim, axis)
-        ts = rng.standard_normal(sh)
+        ts = rand_real(rng, sh, REAL_DTYPES[(t // 3) % len(REAL_DTYPES)])
         si = [1.0, 0.002, 1 / 30000][t % 3]
         typ = ('lp', 'hp', 'bp')[t % 3]
         b0, b1 = _bounds(rng, 1 / si)
@@ -447,12 +485,12 @@ def corr_filters(ctx):
         F = fibres(ts, axis)
         O = None if out is None else fibres(out, axis)
         for i in range(F.shape[0]):
-            lines.append(f'{typ} {bits([si])} ' + ' '.join(bits([v]) for v in b) + ' ' + bits(F[i]))
-            meta.append((ts.shape, si, typ, b, ax_arg, i, F[i], None if O is None else O[i], err))
+            lines.append(f'{typ} {bits([si])} ' + ' '.join(bits([v]) for v in b) + ' ' + bits(F[i].astype(np.float64)))
+            meta.append((ts.shape, si, typ, b, ax_arg, i, F[i].astype(np.float64), None if O is None else O[i], err, str(ts.dtype)))
     model = ctx.lean(lines)
-    for (sh, si, typ, b, axis, i, ti, oi, err), m in zip(meta, model):
-        desc = {'op': typ, 'shape': list(sh), 'axis': axis, 'si': si, 'b': b, 'fibre': i}
-        tags = ('filter:' + typ, f'filter:{len(sh)}d', 'filter:n_odd' if len(ti) % 2 else 'filter:n_even',
+    for (sh, si, typ, b, axis, i, ti, oi, err, dt), m in zip(meta, model):
+        desc = {'op': typ, 'shape': list(sh), 'axis': axis, 'si': si, 'b': b, 'fibre': i, 'dtype': dt}
+        tags = ('filter:' + typ, f'filter:{len(sh)}d', 'filter:' + dt, 'filter:n_odd' if len(ti) % 2 else 'filter:n_even',
                 'filter:axis_last' if axis % len(sh) == len(sh) - 1 else 'filter:axis_first' if axis % len(sh) == 0 else 'filter:axis_middle',
                 'filter:axis_negative' if axis < 0 else 'filter:axis_nonneg')
         if err is not None or not m.startswith('ok'):
@@ -460,7 +498,7 @@ def corr_filters(ctx):
             continue
         mv = unbits(m.split()[1])
         scale = max(float(np.max(np.abs(ti))), 1e-300) * max(len(ti), 1)
-        good = mv.shape == oi.shape and bool(np.all(np.abs(mv - oi) <= TOL * scale))
+        good = mv.shape == oi.shape and bool(np.all(np.abs(mv - oi) <= tol_for(dt) * scale))
         ctx.compare('filter', desc, 'ok' if good else oi[:6].tolist(), 'ok' if good else mv[:6].tolist(),
                     nontrivial=len(ti) >= 3, tags=tags)
 
@@ -478,7 +516,10 @@ def corr_dft(ctx):
         axis = int(rng.integers(0, ndim))
         sh = shapes_for(rng, n, ndim, axis)
         cplx = bool(t % 2)
-        x = rng.standard_normal(sh) + (1j * rng.standard_normal(sh) if cplx else 0)
+        if cplx:
+            x = (rng.standard_normal(sh) + 1j * rng.standard_normal(sh)).astype(('complex128', 'complex64')[(t // 2) % 2])
+        else:
+            x = rand_real(rng, sh, REAL_DTYPES[(t // 2) % len(REAL_DTYPES)])
         try:
             out = fourier.dft(x, axis=(axis - ndim if t % 5 == 2 else axis)) if (axis != ndim - 1 or t % 3) else fourier.dft(x)
             err = None
@@ -487,10 +528,11 @@ def corr_dft(ctx):
         F = fibres(x, axis)
         O = None if out is None else fibres(out, axis)
         for i in range(F.shape[0]):
-            lines.append(f'dft {int(cplx)} {cbits(F[i])}')
-            meta.append(('dft', {'op': 'dft', 'shape': list(sh), 'axis': axis, 'complex': cplx, 'fibre': i}, F[i],
-                         None if O is None else O[i], err, ('dft', 'dft:complex' if cplx else 'dft:real', f'dft:{ndim}d',
-                                                            'dft:n_odd' if n % 2 else 'dft:n_even')))
+            lines.append(f'dft {int(cplx)} {cbits(F[i].astype(np.complex128))}')
+            meta.append(('dft', {'op': 'dft', 'shape': list(sh), 'axis': axis, 'complex': cplx, 'fibre': i, 'dtype': str(x.dtype)},
+                         F[i].astype(np.complex128), None if O is None else O[i], err,
+                         ('dft', 'dft:complex' if cplx else 'dft:real', f'dft:{ndim}d', 'dft:n_odd' if n % 2 else 'dft:n_even',
+                          'dft:' + str(x.dtype)), str(x.dtype)))
     for t in range(ctx.n(25, 150)):
         n0, n1, nt = int(rng.integers(1, 7)), int(rng.integers(1, 7)), int(rng.integers(1, 4))
         nk, nl = (n0, n1) if t % 2 == 0 else (int(rng.integers(1, 6)), int(rng.integers(1, 6)))
@@ -498,25 +540,29 @@ def corr_dft(ctx):
         if t % 3 == 2:   # irregular sampling
             r = r + rng.uniform(-0.1, 0.1, r.shape)
             c = c + rng.uniform(-0.1, 0.1, c.shape)
-        x = rng.standard_normal((n0 * n1, nt)) + (1j * rng.standard_normal((n0 * n1, nt)) if t % 4 == 1 else 0)
+        if t % 4 == 1:
+            x = rng.standard_normal((n0 * n1, nt)) + 1j * rng.standard_normal((n0 * n1, nt))
+        else:
+            x = rand_real(rng, (n0 * n1, nt), REAL_DTYPES[(t // 4) % len(REAL_DTYPES)])
         try:
             out = fourier.dft2(x, r, c, nk, nl)
             err = None
         except Exception as e:
             out, err = None, errname(e)
         for i in range(nt):
-            lines.append(f'dft2 {nk} {nl} {bits(r)} {bits(c)} {cbits(x[:, i])}')
-            meta.append(('dft2', {'op': 'dft2', 'grid': [n0, n1], 'nk': nk, 'nl': nl, 'irregular': t % 3 == 2, 'column': i}, x[:, i],
+            lines.append(f'dft2 {nk} {nl} {bits(r)} {bits(c)} {cbits(x[:, i].astype(np.complex128))}')
+            meta.append(('dft2', {'op': 'dft2', 'grid': [n0, n1], 'nk': nk, 'nl': nl, 'irregular': t % 3 == 2, 'column': i,
+                                  'dtype': str(x.dtype)}, x[:, i].astype(np.complex128),
                          None if out is None else out[:, :, i].ravel(), err,
-                         ('dft2', 'dft2:irregular' if t % 3 == 2 else 'dft2:regular')))
+                         ('dft2', 'dft2:irregular' if t % 3 == 2 else 'dft2:regular', 'dft2:' + str(x.dtype)), str(x.dtype)))
     model = ctx.lean(lines)
-    for (op, desc, xi, oi, err, tags), m in zip(meta, model):
+    for (op, desc, xi, oi, err, tags, dt), m in zip(meta, model):
         if err is not None:
             ctx.compare(op, desc, err, m[:40], tags=tags)
             continue
         mv = uncbits(m.split()[1]) if len(m.split()) > 1 else np.zeros(0, complex)
         scale = max(float(np.sum(np.abs(xi))), 1e-300)
-        good = mv.shape == oi.shape and bool(np.all(np.abs(mv - oi) <= TOL * scale))
+        good = mv.shape == oi.shape and bool(np.all(np.abs(mv - oi) <= tol_for(dt) * scale))
         ctx.compare(op, desc, 'ok' if good else f'{np.asarray(oi)[:4].tolist()} len={len(oi)}', 'ok' if good else f'{mv[:4].tolist()} len={len(mv)}',
                     nontrivial=len(xi) >= 2, tags=tags)
 
@@ -573,11 +619,15 @@ def oracle_nsoptim(n):
 def oracle_conv(nsx, nsw, seed=0):
     from ibldsp import fourier
     rng = np.random.default_rng([seed, nsx, nsw])
-    for kind in ('ramp', 'rand'):
-        x = np.arange(1, nsx + 1, dtype=float) if kind == 'ramp' else rng.standard_normal(nsx)
-        w = np.arange(1, nsw + 1, dtype=float)[::-1].copy() if kind == 'ramp' else rng.standard_normal(nsw)
+    for kind in ('ramp', 'rand') + REAL_DTYPES[1:]:
+        if kind in REAL_DTYPES:
+            x, w = rand_real(rng, nsx, kind, amp=100.0), rand_real(rng, nsw, kind, amp=10.0)
+        else:
+            x = np.arange(1, nsx + 1, dtype=float) if kind == 'ramp' else rng.standard_normal(nsx)
+            w = np.arange(1, nsw + 1, dtype=float)[::-1].copy() if kind == 'ramp' else rng.standard_normal(nsw)
         d = direct_full(x, w)
-        scale = float(np.sum(np.abs(x)) * np.max(np.abs(w)))
+        TOL = tol_for(kind if kind in REAL_DTYPES else 'float64')
+        scale = max(float(np.sum(np.abs(x.astype(float))) * np.max(np.abs(w.astype(float)))), 1e-300)
         for mode in ('full', 'same'):
             for xx in (x, np.tile(x, (2, 1))):
                 try:
@@ -594,7 +644,7 @@ def oracle_conv(nsx, nsw, seed=0):
                     ref = d[(nsw - 1) // 2:(nsw - 1) // 2 + nsx]
                     ok = len(o) == nsx and np.all(np.abs(o - ref) <= TOL * scale)
                 if not ok:
-                    return (f"convolve(x, w, mode='{mode}') with x = {xx.tolist() if nsx * nsw <= 40 else kind + f'[{nsx}]'}, "
+                    return (f"convolve(x, w, mode='{mode}') [{x.dtype}] with x = {xx.tolist() if nsx * nsw <= 40 else kind + f'[{nsx}]'}, "
                             f"w = {w.tolist() if nsx * nsw <= 40 else kind + f'[{nsw}]'} returns {np.round(o[:8], 6).tolist()}… (len {len(o)}), "
                             f'direct convolution gives {np.round(ref[:8], 6).tolist()}… (len {len(ref)})')
     return None
@@ -606,7 +656,7 @@ def oracle_reduce_expand(n, seed=0):
     for ndim in (1, 2, 3):
         for axis in range(ndim):
             sh = shapes_for(rng, n, ndim, axis)
-            s = rng.standard_normal(sh)
+            s = rand_real(rng, sh, REAL_DTYPES[(n + ndim + axis) % len(REAL_DTYPES)], amp=10.0)
             F = np.fft.fft(s, axis=axis)
             try:
                 H = fourier.freduce(F, axis=axis)
@@ -616,13 +666,13 @@ def oracle_reduce_expand(n, seed=0):
                 return f'freduce/fexpand on the spectrum of a real signal of shape {sh}, axis {axis} raised {type(e).__name__}: {e}'
             if H.shape[axis] != n // 2 + 1:
                 return f'freduce keeps {H.shape[axis]} bins of {n} along axis {axis} (shape {sh}); the non-negative frequencies are {n // 2 + 1}'
-            if E.shape != F.shape or np.max(np.abs(E - F)) > TOL * max(np.max(np.abs(F)), 1):
+            if E.shape != F.shape or np.max(np.abs(E - F)) > tol_for(F.dtype) * max(np.max(np.abs(F)), 1) * n:
                 return (f'fexpand(freduce(F), {n}) != F for F = fft of a real signal, shape {sh}, axis {axis}: '
                         f'got shape {E.shape}, max error {np.max(np.abs(E - F)) if E.shape == F.shape else "n/a"}')
             if H2.shape != H.shape or np.any(H2 != H):
                 return f'freduce(fexpand(H, {n})) != H for H = half spectrum, shape {sh}, axis {axis}'
             R = np.fft.rfft(s, axis=axis)
-            if np.max(np.abs(H - R)) > TOL * max(np.max(np.abs(F)), 1):
+            if np.max(np.abs(H - R)) > tol_for(F.dtype) * max(np.max(np.abs(F)), 1) * n:
                 return f'freduce(fft(x)) != rfft(x), shape {sh}, axis {axis}'
     return None
 
@@ -646,28 +696,34 @@ def oracle_filters(n, seed=0):
     for ndim in (1, 2, 3):
         for axis in range(ndim):
             sh = shapes_for(rng, n, ndim, axis)
-            ts = rng.standard_normal(sh)
             si = float(rng.choice([1.0, 0.002]))
             b0, b1 = _bounds(rng, 1 / si)
             b2, b3 = _bounds(rng, 1 / si)
-            try:
-                lo = fourier.lp(ts, si, [b0, b1], axis=axis)
-                hi = fourier.hp(ts, si, [b0, b1], axis=axis - ndim)
-                band = fourier.bp(ts, si, [b0, b1, b2, b3], axis=axis)
-                comp = fourier.hp(fourier.lp(ts, si, [b2, b3], axis=axis), si, [b0, b1], axis=axis)
-                fib = np.apply_along_axis(lambda v: fourier.lp(v, si, [b0, b1]), axis, ts)
-            except Exception as e:
-                return f'lp/hp/bp on shape {sh}, axis {axis}, si {si}, corners {[b0, b1, b2, b3]} raised {type(e).__name__}: {e}'
-            tol = TOL * max(float(np.max(np.abs(ts))), 1) * n
-            if lo.shape != ts.shape or np.max(np.abs(lo + hi - ts)) > tol:
-                return (f'lp + hp != identity: shape {sh}, axis {axis}, si {si}, corners {[b0, b1]}, '
-                        f'max |lp + hp - ts| = {np.max(np.abs(lo + hi - ts)) if lo.shape == ts.shape else "shape " + str(lo.shape)}')
-            if fib.shape != lo.shape or np.max(np.abs(fib - lo)) > tol:
-                return (f'lp along axis {axis} of shape {sh} differs from lp of each 1-D fibre: '
-                        f'max difference {np.max(np.abs(fib - lo)) if fib.shape == lo.shape else "shape " + str(lo.shape)}')
-            if band.shape != ts.shape or np.max(np.abs(band - comp)) > tol:
-                return (f'bp != hp o lp: shape {sh}, axis {axis}, si {si}, corners {[b0, b1, b2, b3]}, '
-                        f'max difference {np.max(np.abs(band - comp)) if band.shape == ts.shape else "shape " + str(band.shape)}')
+            for dt in REAL_DTYPES:
+                ts = rand_real(rng, sh, dt, amp=1000.0)
+                ts64 = ts.astype(np.float64)
+                what = f'shape {sh}, dtype {dt}, axis {axis}, si {si}'
+                try:
+                    lo = fourier.lp(ts, si, [b0, b1], axis=axis)
+                    hi = fourier.hp(ts, si, [b0, b1], axis=axis - ndim)
+                    band = fourier.bp(ts, si, [b0, b1, b2, b3], axis=axis)
+                    comp = fourier.hp(fourier.lp(ts, si, [b2, b3], axis=axis), si, [b0, b1], axis=axis)
+                    lo64 = fourier.lp(ts64, si, [b0, b1], axis=axis)
+                    fib = np.apply_along_axis(lambda v: fourier.lp(v, si, [b0, b1]), axis, ts)
+                except Exception as e:
+                    return f'lp/hp/bp on {what}, corners {[b0, b1, b2, b3]} raised {type(e).__name__}: {e}'
+                tol = tol_for(dt) * max(float(np.max(np.abs(ts64))), 1) * n
+
+                def dev(a, b):
+                    return float(np.max(np.abs(a - b))) if a.shape == b.shape else 'shape ' + str(a.shape)
+                if lo.shape != ts.shape or np.max(np.abs(lo + hi - ts64)) > tol:
+                    return f'lp + hp != identity: {what}, corners {[b0, b1]}, max |lp + hp - ts| = {dev(lo + hi, ts64) if lo.shape == hi.shape else "shape " + str(lo.shape)}'
+                if lo64.shape != lo.shape or np.max(np.abs(lo - lo64)) > tol:
+                    return f'lp(ts) != lp(ts.astype(float64)): {what}, corners {[b0, b1]}, max difference {dev(lo, lo64)}'
+                if fib.shape != lo.shape or np.max(np.abs(fib - lo)) > tol:
+                    return f'lp along axis {axis} differs from lp of each 1-D fibre: {what}, max difference {dev(fib, lo)}'
+                if band.shape != ts.shape or np.max(np.abs(band - comp)) > tol:
+                    return f'bp != hp o lp: {what}, corners {[b0, b1, b2, b3]}, max difference {dev(band, comp)}'
     return None
 
 
@@ -695,15 +751,17 @@ def oracle_dft(n, seed=0):
     for ndim in (1, 2, 3):
         for axis in range(ndim):
             sh = shapes_for(rng, n, ndim, axis)
-            for cplx in (False, True):
-                x = rng.standard_normal(sh) + (1j * rng.standard_normal(sh) if cplx else 0)
-                want = np.fft.fft(x, axis=axis) if cplx else np.fft.rfft(x, axis=axis)
+            for dt in REAL_DTYPES + ('complex128', 'complex64'):
+                cplx = np.dtype(dt).kind == 'c'
+                x = (rng.standard_normal(sh) + 1j * rng.standard_normal(sh)).astype(dt) if cplx else rand_real(rng, sh, dt, amp=100.0)
+                x64 = x.astype(np.complex128 if cplx else np.float64)
+                want = np.fft.fft(x64, axis=axis) if cplx else np.fft.rfft(x64, axis=axis)
                 try:
                     got = fourier.dft(x, axis=axis)
                 except Exception as e:
                     return f'dft on shape {sh}, axis {axis} raised {type(e).__name__}: {e}'
-                if got.shape != want.shape or np.max(np.abs(got - want)) > TOL * max(np.sum(np.abs(x)), 1):
-                    return (f'dft(x, axis={axis}) != {"fft" if cplx else "rfft"}(x, axis={axis}) for x of shape {sh}: got shape {got.shape}, '
+                if got.shape != want.shape or np.max(np.abs(got - want)) > tol_for(dt) * max(np.sum(np.abs(x64)), 1):
+                    return (f'dft(x, axis={axis}) != {"fft" if cplx else "rfft"}(x, axis={axis}) for x of shape {sh}, dtype {dt}: got shape {got.shape}, '
                             f'expected {want.shape}' + (f', max error {np.max(np.abs(got - want))}' if got.shape == want.shape else ''))
     return None
 
